@@ -160,6 +160,13 @@ func RepExprs(yield func(name string, x X)) {
 	yield("string-backslash-percent", StrRaw(`'50\\%'`, `50\%`))
 	yield("string-escape-n", StrRaw(`'a\nb'`, "a\nb"))
 	yield("string-semicolon", Str("a;b"))
+	// white space inside values: runs of blanks, a tab, blanks at either end, a no-break space, a form feed
+	yield("string-two-blanks", Str("disk  full"))
+	yield("string-tab", Str("col1\tcol2"))
+	yield("string-blanks-at-ends", Str("  x "))
+	yield("string-nbsp", Str("10\u00a0kg"))
+	yield("string-formfeed", Str("a\fb"))
+	yield("quoted-ident-two-blanks", QuotedCol("unit  price"))
 	yield("string-comment-marks", Str("a -- b /* c */"))
 	yield("string-double-quote", Str(`say "hi"`))
 	yield("string-like-wildcards", Str("50%_x"))
